@@ -44,6 +44,10 @@ def meta(top):
   m["value_nets"] = sorted((repr(w), tuple(names(ms))) for w, ms in top.get_all_value_nets())
   m["method_nets"] = sorted((repr(w), tuple(names(ms))) for w, ms in top.get_all_method_nets())
   m["adjacency"] = sorted((repr(k), tuple(names(v))) for k, v in top.get_signal_adjacency_dict().items() if v)
+  from pymtl3.dsl.Connectable import Const
+  import collections
+  cnt = collections.Counter(repr(k) for k in top.get_signal_adjacency_dict() if isinstance(k, Const))
+  m["adjacency_const_keys"] = sorted(f"{k} x{n}" for k, n in cnt.items())      # left-over constant nodes show as a higher multiplicity
   m["update_blocks"] = sorted(blkkey(top, b) for b in top.get_all_update_blocks())
   m["update_ff"] = sorted(blkkey(top, b) for b in top.get_all_update_ff())
   m["update_once"] = sorted(blkkey(top, b) for b in top.get_all_update_once())
